@@ -12,7 +12,7 @@
    pending events in the order the event set (CQueue.Spec, C01) returns them. *)
 From Coq Require Import List NArith Permutation.
 From DesVerif Require Import CQueue.Model CQueue.Spec Channel.Model Channel.Queue Channel.Trace Channel.Core
-  Channel.Account Channel.Timing Channel.Props Channel.Term Channel.Order Channel.Multi Channel.Project Channel.Links Channel.MTerm.
+  Channel.Account Channel.Timing Channel.Props Channel.Term Channel.Order Channel.Multi Channel.Project Channel.Links Channel.MTerm Channel.ModelCq Channel.OverCq Channel.OverCqProps.
 Import ListNotations.
 Open Scope N_scope.
 
@@ -200,6 +200,89 @@ Proof.
 Qed.
 Print Assumptions C07_multi_run_completes.
 
+(* ---- composition with C01: the loop over the calendar queue ----
+   The model above threads the two-list SPECIFICATION of the event set (CQueue.Spec); the crate runs
+   on the calendar queue.  Channel/ModelCq.v is the same loop with the calendar-queue model of C01
+   (cq_new n t, add, fetch_next, tcur, qlen) in place of the specification's operations.  By forward
+   simulation with C01's relation R it computes the same thing for every n, t >= 1: *)
+
+(* wire level: the runner over the calendar queue prints what the extracted runner prints *)
+Theorem C07_run_over_cqueue_eq_run_over_spec : forall n t input,
+  n <> 0 -> t <> 0 -> run_cq n t input = Multi.run input.
+Proof. exact run_cq_eq_run. Qed.
+Print Assumptions C07_run_over_cqueue_eq_run_over_spec.
+
+(* state level, one channel: same channel record, same samples left, same log, and the calendar
+   queue is empty exactly when the specification has no event pending *)
+Theorem C07_single_over_cqueue_eq_over_spec : forall n t tx mt bursts oracle k,
+  n <> 0 -> t <> 0 ->
+  let a := csteps current enc_ev tx mt bursts k (cinit enc_ev bursts n t oracle) in
+  let b := steps current enc_ev tx mt bursts k (init enc_ev bursts oracle) in
+  cch a = ch b /\ corc a = orc b /\ clog a = log b /\
+  (qlen (cqs a) =? 0) = match s_zero (q b) ++ s_rest (q b) with [] => true | _ => false end.
+Proof. exact run_over_cqueue_eq_run_over_spec. Qed.
+Print Assumptions C07_single_over_cqueue_eq_over_spec.
+
+(* state level, several channels *)
+Theorem C07_multi_over_cqueue_eq_over_spec : forall n t txs mts mbursts oracles k,
+  n <> 0 -> t <> 0 ->
+  let a := cmsteps own_instance txs mts mbursts k (cminit mbursts n t oracles) in
+  let b := msteps own_instance txs mts mbursts k (minit mbursts oracles) in
+  (forall c, cinst_of a c = inst_of b c) /\ (forall c, corcs a c = orcs b c) /\ cmlog a = mlog b /\
+  (qlen (cmq a) =? 0) = match s_zero (mq b) ++ s_rest (mq b) with [] => true | _ => false end.
+Proof. exact multi_over_cqueue_eq_over_spec. Qed.
+Print Assumptions C07_multi_over_cqueue_eq_over_spec.
+
+(* the headline theorems for the run over the calendar queue; its pending events are the
+   current-instant list followed by the buckets (CQueue.Refine.pend) *)
+Theorem C07_account_cq : forall n t, n <> 0 -> t <> 0 -> forall tx mt bursts oracle k,
+  let s := reach_cq n t tx mt bursts oracle k in
+  Permutation (all_ids bursts)
+    (delivered (clog s) ++ dropped_busy (clog s) ++ dropped_full (clog s) ++ map fst (buffer (cch s))
+     ++ exits (Refine.pend (cqs s)) ++ pending_ids bursts (Refine.pend (cqs s))).
+Proof. exact account_cq. Qed.
+Print Assumptions C07_account_cq.
+
+Theorem C07_delivery_time_cq : forall n t, n <> 0 -> t <> 0 -> forall tx mt bursts oracle k m t',
+  let s := reach_cq n t tx mt bursts oracle k in
+  In (IDeliver m t') (clog s) ->
+  exists len t0 j fq, In (IStart m len t0 j fq) (clog s) /\ t' = t0 + (m_lat mt + tx len + j) /\
+    (m_jit mt = 0 -> j = 0) /\ (Forall (fun j => j < m_jit mt) oracle -> m_jit mt <> 0 -> j < m_jit mt).
+Proof. exact delivery_time_cq. Qed.
+Print Assumptions C07_delivery_time_cq.
+
+Theorem C07_busy_span_cq : forall n t, n <> 0 -> t <> 0 -> forall tx mt bursts oracle k,
+  let s := reach_cq n t tx mt bursts oracle k in
+  wf_log tx mt (clog s) /\
+  cur_of tx (clog s) = (if busy (cch s) then Some (finish (cch s)) else None) /\
+  unbusies (Refine.pend (cqs s)) = (if busy (cch s) then [finish (cch s)] else []) /\
+  (busy (cch s) = false -> buffer (cch s) = []).
+Proof. exact busy_span_cq. Qed.
+Print Assumptions C07_busy_span_cq.
+
+Theorem C07_fifo_order_cq : forall n t, n <> 0 -> t <> 0 -> forall tx mt bursts oracle k,
+  let s := reach_cq n t tx mt bursts oracle k in
+  rev (accepted (clog s)) = rev (started (clog s)) ++ map fst (buffer (cch s)).
+Proof. exact fifo_order_cq. Qed.
+Print Assumptions C07_fifo_order_cq.
+
+(* channel c of a multi-channel run over a calendar queue (n, t) is a state of c's own run over a
+   calendar queue of its own (n', t'), whatever the four parameters *)
+Theorem C07_links_independent_cq : forall n t, n <> 0 -> t <> 0 -> forall txs mts mbursts oracles n' t' c k,
+  n' <> 0 -> t' <> 0 -> c < NCH ->
+  exists k', cinst_of (mreach_cq n t txs mts mbursts oracles k) c = cch (own_run_cq txs mts mbursts oracles n' t' c k') /\
+             corcs (mreach_cq n t txs mts mbursts oracles k) c = corc (own_run_cq txs mts mbursts oracles n' t' c k') /\
+             plog c (cmlog (mreach_cq n t txs mts mbursts oracles k)) = clog (own_run_cq txs mts mbursts oracles n' t' c k').
+Proof. exact links_independent_cq. Qed.
+Print Assumptions C07_links_independent_cq.
+
+(* the run of every script over the calendar queue ends within the fuel with an empty queue *)
+Theorem C07_multi_run_completes_cq : forall n t, n <> 0 -> t <> 0 -> forall txs mts oracles offs,
+  let bs := sched_order (mgroup offs 0) in
+  qlen (cmq (cmsteps own_instance txs mts bs (mfuel offs) (cminit bs n t oracles))) = 0.
+Proof. exact multi_run_completes_cq. Qed.
+Print Assumptions C07_multi_run_completes_cq.
+
 (* ---- non-vacuity: a script that queues, drains two zero-time messages in one Unbusy, drops on a
    full queue and delivers in order (2 Tbit/s: 64 B -> 0 ns, 1088 B -> 4 ns; latency 0) ---- *)
 Definition ex_tx (len : N) : N := if len =? 64 then 0 else 4.
@@ -230,3 +313,9 @@ Example C07_example_links :
   rev (delivered (plog 3 (mlog ex_mfinal))) = [2] /\ In (IStart 1 64 10000000 0 false) (plog 1 (mlog ex_mfinal)) /\
   In (IStart 2 64 10000000 0 false) (plog 3 (mlog ex_mfinal)) /\ pend (mq ex_mfinal) = [].
 Proof. vm_compute. intuition. Qed.
+
+(* the same script over a calendar queue with 3 buckets of width 7 ms (the run wraps around it several times) *)
+Example C07_example_over_cqueue :
+  cmlog (cmsteps own_instance (fun _ _ => 64000000) (fun _ => {| m_lat := 100000000; m_jit := 0; m_pol := PDrop |}) ex_mb 20
+           (cminit ex_mb 3 7000000 (fun _ => []))) = mlog ex_mfinal.
+Proof. vm_compute. reflexivity. Qed.
